@@ -292,8 +292,11 @@ print_unicode(iconv_t cd, int endian, int unicode, char **p, int n)
 	if ((size_t) -1 == r && E2BIG == errno)
 		goto error;
 
+	/* A '@' in place of another character is taken for "cannot
+	   be represented". That must be a single byte 0x40: in a
+	   16 bit encoding U+0440 starts (or ends) with 0x40 too. */
 	if ((size_t) -1 == r
-	    || (**p == 0x40 && unicode != 0x0040)) {
+	    || (1 == op - *p && **p == 0x40 && unicode != 0x0040)) {
 		in[0 + endian] = 0x20;
 		in[1 - endian] = 0;
 		ip = in; op = *p;
